@@ -60,7 +60,18 @@ def fixpoint(dep, k):
     return R
 
 
-def run_case(ci, timeout_ms):
+def pending_by_api(obj, uname):
+    from textx import get_model
+    from textx.scoping import get_included_models
+    from textx.scoping.tools import needs_to_be_resolved
+    for m in get_included_models(get_model(obj)):
+        for u in getattr(m, 'users', []):
+            if u.name == uname:
+                return needs_to_be_resolved(u, 'r') or needs_to_be_resolved(u, 'rs')
+    return False
+
+
+def run_case(ci, timeout_ms, via_api=False):
     from textx import metamodel_from_str
     from textx.scoping import Postponed
     import textx.scoping.providers as P
@@ -94,7 +105,13 @@ def run_case(ci, timeout_ms):
                     raise RuntimeError('step budget exceeded (non-termination?)')
                 i = unames.index(obj.name)
                 for j in range(k):
-                    if unames[j] not in resolved and c.branch(dep[i][j]):
+                    if via_api:
+                        # "is reference j still unresolved?" asked through textX's own API
+                        # (textx.scoping.tools.needs_to_be_resolved), as scope providers do
+                        pending = pending_by_api(obj, unames[j])
+                    else:
+                        pending = unames[j] not in resolved
+                    if pending and c.branch(dep[i][j]):
                         return Postponed()
                 res = inner(obj, attr, obj_ref)
                 if res is not None:
@@ -180,9 +197,10 @@ def decode(mdl, dep, unames):
 
 
 def obligation(item):
-    ci, timeout_ms = item
-    ctx, outs = run_case(ci, timeout_ms)
-    res = {'case': CASES[ci][0], 'paths': ctx.paths, 'queries': ctx.queries, 'solver_s': ctx.secs,
+    ci, timeout_ms = item[:2]
+    via_api = len(item) > 2 and item[2]
+    ctx, outs = run_case(ci, timeout_ms, via_api)
+    res = {'case': CASES[ci][0] + (' (pending asked via needs_to_be_resolved)' if via_api else ''), 'paths': ctx.paths, 'queries': ctx.queries, 'solver_s': ctx.secs,
            'ok': 0, 'okfail': 0, 'bad': [], 'unknown': 0, 'truncated': ctx.truncated}
     for o in outs:
         if o[0] == 'ok':
@@ -193,11 +211,11 @@ def obligation(item):
             res['unknown'] += 1
         else:
             if len(res['bad']) < 3:
-                res['bad'].append({'case': ci, 'kind': o[0], 'detail': o[1], 'dep': o[2]})
+                res['bad'].append({'case': ci, 'kind': o[0], 'detail': o[1], 'dep': o[2], 'via_api': via_api})
     return res
 
 
-def replay_dep(ci, depmap):
+def replay_dep(ci, depmap, via_api=False):
     """concrete replay of one dependency matrix: (violates, detail)"""
     from textx import metamodel_from_str
     from textx.scoping import Postponed
@@ -228,7 +246,8 @@ def replay_dep(ci, depmap):
                     raise RuntimeError('step budget exceeded')
                 i = unames.index(obj.name)
                 for j in range(k):
-                    if unames[j] not in resolved and dep[i][j]:
+                    pending = pending_by_api(obj, unames[j]) if via_api else unames[j] not in resolved
+                    if pending and dep[i][j]:
                         return Postponed()
                 res = inner(obj, attr, obj_ref)
                 if res is not None:
@@ -273,7 +292,7 @@ def main():
     chk = Check(PROP, 'exploration')
     quick = chk.tier == 'quick'
     cases = [0, 1, 2] if quick else list(range(len(CASES)))
-    items = [(ci, 20000) for ci in cases]
+    items = [(ci, 20000, api) for ci in cases for api in (False, True)]
     results = pmap(obligation, items)
     chk.cov['functions_encoded'] = src_hash(M.ReferenceResolver.resolve_one_step, M.parse_tree_to_objgraph)
     chk.cov['bounds'] = {'cases': [CASES[c][0] for c in cases], 'references': '3 (quick) / up to 4 (thorough)',
@@ -292,7 +311,7 @@ def main():
         paths += r['paths']
         chk.cov['inconclusive'] += r['unknown'] + (1 if r['truncated'] else 0)
         for b in r['bad']:
-            bad, detail = replay_dep(b['case'], b['dep']) if b['dep'] is not None else (True, b['detail'])
+            bad, detail = replay_dep(b['case'], b['dep'], b.get('via_api', False)) if b['dep'] is not None else (True, b['detail'])
             chk.cov['traces_validated_against_impl'] += 1
             if bad:
                 chk.violation('%s: %s (dependencies %s): %s' % (CASES[b['case']][0], b['detail'], b['dep'],
@@ -312,4 +331,4 @@ def main():
 
 
 def replay(data):
-    return replay_dep(data['case'], data['dep'])
+    return replay_dep(data['case'], data['dep'], data.get('via_api', False))
